@@ -269,6 +269,87 @@ def check_species_copy(ctx) -> None:
             ctx.ok("C12.detach", fn, f"{cname}.copy", f"{cname}.copy() shares no mutable attribute with the original (evaluated)")
 
 
+def check_pickle_graph(ctx) -> None:
+    """copy.deepcopy (the standard library's, which is also what pickle does) run on the stand-in model graph, with the
+    package's own __getstate__ / __setstate__ methods evaluated for every object on the way: the result shares nothing
+    mutable with the original, says what the original said (every object points to the new model, back-references and
+    group members are the new objects), and has an empty context stack. The same for a single attached metabolite /
+    gene (Species.copy is deepcopy): the copy has a model attribute that says 'no model' and no back-references."""
+    from . import copyform
+    from ..interp import Interp
+    import copy as _copy
+
+    prog = ctx.prog
+    classes, attrs = copyform.build_classes(prog)
+    Obj = classes["Object"]
+    ms = prog.func("cobra.core.model", "Model.__setstate__")
+
+    def method(cname, name):
+        try:
+            found = [m for m in prog.find_method(prog.cls(cname), name) if m.unit.modname.startswith("cobra.")]
+        except Exception:  # noqa: BLE001
+            found = []
+        return found[0] if found else None
+
+    follow = [f.qualname for f in prog.all_funcs() if f.name in ("__getstate__", "__setstate__") and f.unit.modname.startswith("cobra.core.") and f.unit.modname != "cobra.core.dictlist"]
+    stubs = {"type": lambda it_, ev, c, a, k: type(a[0])}
+    for mod in ("cobra.core.gene", "cobra.core", "cobra"):
+        stubs[f"{mod}.GPR.from_string"] = lambda it_, ev, c, a, k: copyform._GPR.from_string(a[0])
+    it = Interp(prog, (copyform._S,), follow, stubs, globals_={"str": str})
+    Obj.protocol = (it, method)
+    try:
+        Obj.aware_calls.clear()
+        orig = copyform.build_model(classes, attrs)
+        try:
+            new = _copy.deepcopy(orig)
+        except EvalRaise as exc:
+            ctx.bad("C12.state", ms, ms.node, f"copy.deepcopy / pickle of a model with metabolites, genes, reactions and nested groups raises {exc.exc_type}")
+            return
+        except Unknown as exc:
+            raise AnalysisError(f"C12.state: the pickle protocol of the model classes cannot be evaluated: {exc}")
+        a, b = copyform.reachable(orig, "original"), copyform.reachable(new, "copy")
+        shared = sorted((b[k][1], a[k][1]) for k in set(a) & set(b))
+        ref, rattrs = copyform.build_classes(prog)
+        pristine = _summary(copyform.build_model(ref, rattrs))
+        bad = False
+        if shared:
+            bad = True
+            ctx.bad("C12.state", ms, ms.node, f"after copy.deepcopy / pickle of a model, {shared[0][0]} is the very object {shared[0][1]}: the two models are not independent")
+        for what, got in (("the original after deepcopy", _summary(orig)), ("the deep copy / unpickled model", _summary(new))):
+            diff = [k for k in sorted(set(pristine) | set(got)) if pristine.get(k) != got.get(k)]
+            if diff:
+                bad = True
+                k = diff[0]
+                ctx.bad("C12.state", ms, ms.node, f"{what} differs from the model that was copied: {k} is {got.get(k)!r}, was {pristine.get(k)!r}" + (f" (+{len(diff) - 1} more)" if len(diff) > 1 else ""))
+        if new.__dict__.get("_contexts") != []:
+            bad = True
+            ctx.bad("C12.state", ms, ms.node, "the deep copy / unpickled model does not start with an empty context stack")
+        if not bad:
+            ctx.ok("C12.state", ms, "deepcopy of a model", f"copy.deepcopy with the package's own __getstate__/__setstate__ evaluated: nothing shared, {len(pristine)} facts equal (model pointers, back-references, members), empty context stack")
+        # one attached species on its own
+        sc = prog.func("cobra.core.species", "Species.copy")
+        for kind in ("metabolites", "genes"):
+            orig = copyform.build_model(classes, attrs)
+            x = list(getattr(orig, kind))[0]
+            try:
+                y = _copy.deepcopy(x)
+            except EvalRaise as exc:
+                ctx.bad("C12.detach", sc, sc.node, f"deepcopy of an attached {type(x).__name__.lstrip('_')} raises {exc.exc_type}")
+                continue
+            except Unknown as exc:
+                raise AnalysisError(f"C12.state: the pickle protocol of {kind} cannot be evaluated: {exc}")
+            if "_model" not in y.__dict__ or y.__dict__["_model"] is not None:
+                ctx.bad("C12.detach", sc, sc.node, f"the copy of an attached {x._real.lower()} has {'no `_model` attribute at all (reading .model raises AttributeError, the copy cannot be put into a reaction)' if '_model' not in y.__dict__ else 'the model of the original as its model'}")
+            elif y.__dict__.get("_reaction") != set():
+                ctx.bad("C12.detach", sc, sc.node, f"the copy of an attached {x._real.lower()} keeps back-references to reactions ({len(y.__dict__.get('_reaction') or ())})")
+            elif set(copyform.reachable(orig, "original")) & set(copyform.reachable(y, "copy")):
+                ctx.bad("C12.detach", sc, sc.node, f"the copy of an attached {x._real.lower()} shares a mutable object with the model it was taken from")
+            else:
+                ctx.ok("C12.detach", sc, f"deepcopy of an attached {x._real.lower()}", "no model, no back-references, nothing shared (package __getstate__ evaluated)")
+    finally:
+        Obj.protocol = None
+
+
 def check_deepcopy_protocol(ctx) -> None:
     """A class that customises deep copying has to hand the memo on: `__deepcopy__` without use of its memo argument
     copies the object outside the copy in progress, so objects copied together with it (deepcopy of a model together
@@ -483,6 +564,13 @@ def check_foreign(ctx) -> None:
 
 # ----------------------------------------------------------------------------------------- state
 def check_state(ctx) -> None:
+    """The evaluated deep copy decides; the reading of the two __setstate__ methods explains when it fails."""
+    n0, d0 = len(ctx.findings), len(ctx.deferred)
+    ctx.guard(check_pickle_graph, ctx)
+    ctx.explain(len(ctx.findings) > n0 or len(ctx.deferred) > d0, _check_state_reading, ctx)
+
+
+def _check_state_reading(ctx) -> None:
     prog = ctx.prog
     mi = prog.cls("Model")
     lists = []
